@@ -47,7 +47,10 @@ CONSTANTS Codes,        \* ErrorCode objects (two objects may share a name: CALL
           BlockersBypass,         \* blockers are never ignored
           \* TRUE: OutputExactness is claimed only for report sequences in which equal texts on one line carry one code
           \* (FALSE documents the defect of the rule: see Finding_Errors_CrossCodeDup.cfg)
-          AssumeNoCrossCodeDups
+          AssumeNoCrossCodeDups,
+          \* TRUE: a note attached to an error is reported with the error's origin (messages.py passes the parent's
+          \* context and origin_context); FALSE (specification-level mutant): only with the line it is reported on
+          NotesInheritOrigin
 
 None == "none"
 Range(s) == {s[i] : i \in 1..Len(s)}
@@ -289,6 +292,32 @@ ExactDisable(cfgB, cfgV, c, ev) ==
        /\ c \notin {"unused-ignore", "ignore-without-code"} =>
              \A x \in Generated(B, g) : x.kind = "unused" => \E y \in Generated(V, g) : y.line = x.line /\ y.kind = "unused"
 
+\* ---- attached notes.  A note is attached to the error-severity report i when it names it as parent_error, or (the
+\* older convention of messages.py) when it is reported after it, before the next error of the file, with the same
+\* code -- unless that code is the default `misc`, which also every free-standing note (reveal_type ...) carries.
+AttachedTo(ev, i) ==
+  {j \in (i + 1)..Len(ev) :
+     /\ ev[j].t = "report" /\ ev[j].f = ev[i].f /\ ev[j].r.sev = "note"
+     /\ \/ ev[j].r.par = i
+        \/ /\ ev[j].r.par = 0
+           /\ ev[j].r.code # None /\ ev[i].r.code # None /\ NameOf[ev[j].r.code] = NameOf[ev[i].r.code]
+           /\ NameOf[ev[j].r.code] # "misc"
+           /\ \A k \in (i + 1)..(j - 1) : ~(ev[k].t = "report" /\ ev[k].f = ev[i].f /\ ev[k].r.sev = "error")}
+ErrorIdx(ev) == {i \in 1..Len(ev) : ev[i].t = "report" /\ ev[i].r.sev = "error" /\ ~ev[i].r.blocker}
+\* An ignore on ANY line of an error's origin span that removes the error must remove its attached notes: the
+\* pairs <<error, note>> for which the ignore (L, K) at f removed the error and left the note
+NotesLeftBehind(cfgB, cfgV, f, L, ev) ==
+  LET B == Run(cfgB, ev)
+      V == Run(cfgV, ev)
+      K == cfgV[f].ign[L].codes
+      rb == Reps(B, f)
+      rv == Reps(V, f)
+      matched == {i \in rb \cap ErrorIdx(ev) : L \in Range(ev[i].r.span) /\ CodeMatch(ev[i].r.code, K)}
+  IN UNION {{<<i, j>> : j \in AttachedTo(ev, i) \cap rv} : i \in matched}
+\* the same statement without placing anything: an attached note whose origin span misses a line of its error's
+NarrowerOrigin(ev) ==
+  UNION {{<<i, j>> : j \in {k \in AttachedTo(ev, i) : ~(Range(ev[i].r.span) \subseteq Range(ev[k].r.span))}} : i \in ErrorIdx(ev)}
+
 \* Output-level exactness (DESIGN Appendix D): the error-severity diagnostics *printed* under cfgV are those printed
 \* under cfgB minus removals, plus only the generated unused-ignore / ignore-without-code errors (and once-only
 \* messages, which are program-level).  NewErrors is the set of offenders.
@@ -381,7 +410,9 @@ LastError(f) == LET S == {i \in 1..Len(ev) : ev[i].t = "report" /\ ev[i].f = f /
 Instantiate(t) ==
   IF t.child
   THEN LET p == ev[LastError(t.f)].r
-       IN [p EXCEPT !.sev = "note", !.blocker = FALSE, !.once = t.once, !.msg = Msg("m", t.msg, "", <<>>, {}), !.par = LastError(t.f)]
+       IN [p EXCEPT !.sev = "note", !.blocker = FALSE, !.once = t.once, !.msg = Msg("m", t.msg, "", <<>>, {}),
+                    !.par = IF t.linked THEN LastError(t.f) ELSE 0,
+                    !.span = IF NotesInheritOrigin THEN p.span ELSE <<p.line>>]
   ELSE [line |-> t.line, col |-> t.col, el |-> t.line, ec |-> t.col + 1, span |-> t.span, code |-> t.code, sev |-> t.sev,
         blocker |-> t.blocker, once |-> t.once, msg |-> Msg("m", t.msg, "", <<>>, {}), par |-> 0, ctx |-> 0]
 Report == /\ pc = "run" /\ Len(ev) < MaxReports
@@ -413,6 +444,10 @@ OutputExactness == (Done /\ (AssumeNoCrossCodeDups => NoCrossCodeDups(ev))) =>
                       (cfg[f].ign[l].on /\ cfg[f].hasMap) => NewErrors(WithoutIgnore(cfg, f, l), cfg, ev) = {}
                  /\ \A c \in Codes :
                       (\E f \in Files : c \in cfg[f].disabled) => NewErrors(WithoutDisable(cfg, c), cfg, ev) = {}
+AttachedExact == Done => /\ NarrowerOrigin(ev) = {}
+                         /\ \A i \in 1..Len(Slots) :
+                              LET f == Slots[i][1] l == Slots[i][2] IN
+                              (cfg[f].ign[l].on /\ cfg[f].hasMap) => NotesLeftBehind(WithoutIgnore(cfg, f, l), cfg, f, l, ev) = {}
 UnusedExact == Done => (UnusedIff(cfg, ev) /\ NoCodeIff(cfg, ev))
 ExitCode == Done => ExitTruth(cfg, ev)
 
